@@ -431,6 +431,10 @@ package store
 //@ -- an index entry the policy retains whatever its age: it is not a referrers response, and it is tagged or untagged
 //@ -- collection is off (recent entries are retained too: that part is decided by the bounded stand-in, see DESIGN.md)
 //@ pred gcRoot(e, untagged) := types.subjOf(e) == "" && (types.tagOf(e) != "" || !untagged)
+//@ -- gcRecent(x): the blob of x is younger than the grace period, as blobMeta reports it (defined by the outcome of the
+//@ -- look-ups; assumed not to change during one collection); a recent index entry that is not a referrers response is a root too
+//@ ghost func gcRecent(d digest.Digest) bool
+//@ pred gcRecentRoot(e, grace) := types.subjOf(e) == "" && grace >= 0 && gcRecent(e.Digest)
 //@ pred refQueued(sj, W, x) := (x in sj) ==> queued(W, sj[x].Digest, mtKind(sj[x].MediaType))
 
 //@ func repoGarbageCollect(repo Repo, conf config.Config, index types.Index, locked bool) (out types.Index, mod bool, err error)
@@ -446,6 +450,8 @@ package store
 //@   loop 5: invariant [listed-digests-valid]{C06} forall k: int :: 0 <= k && k < len(dl) ==> digestOK(dl[k])
 //@   loop 6: invariant [visited-have-blobs]{C06} forall k: int :: 0 <= k && k < len(index.Manifests) && visited[index.Manifests[k].Digest] && index.Manifests[k].Digest != "" ==> blobExists[index.Manifests[k].Digest]
 //@   ensures [no-entry-without-blob]{C06} err == nil ==> forall k: int :: 0 <= k && k < len(out.Manifests) && out.Manifests[k].Digest != "" ==> blobExists[out.Manifests[k].Digest]
+//@   assume [recent-is-stable-1] after "repo.blobMeta(d.Digest, locked)"#1: (ret1 == nil && ret0.mod > cutoff) <==> gcRecent(d.Digest)
+//@   assume [recent-is-stable-2] after "repo.blobMeta(d, locked)": (ret1 == nil && ret0.mod > cutoff) <==> gcRecent(d#3)
 //@   assume [readable-is-stable] after "repo.blobGet(d.Digest, locked)": (ret1 == nil) <==> gcReadable(d#2.Digest)
 //@   assume [index-decoded-once] after "Decode(&man)"#1: ret == nil && br != nil && br.of == d#2.Digest ==> len(man.Manifests) == gcIdxN(d#2.Digest) &&
 //@             (forall k: int :: 0 <= k && k < len(man.Manifests) ==> man.Manifests[k].Digest == gcIdxChild(d#2.Digest, k) &&
@@ -463,9 +469,9 @@ package store
 //@   assume [clean-0] after "br.Close()"#3: (ret == nil) <==> gcClean(d#2.Digest, 0)
 //@   -- loop 1 puts every such entry on the work list; the mark loop keeps it settled
 //@   loop 1,2,3,4: invariant [index-apart]{C05} arr(index.Manifests) != arr(manifests)
-//@   loop 1: invariant [roots-queued]{C05} uses(call.Descriptor.Copy@*, 1:index-apart) forall k: int :: 0 <= k && k <= rangeindex && k < len(index.Manifests) && gcRoot(index.Manifests[k], *conf.Storage.GC.Untagged) ==>
+//@   loop 1: invariant [roots-queued]{C05} uses(call.Descriptor.Copy@*, 1:index-apart, assume.recent-is-stable-1) forall k: int :: 0 <= k && k <= rangeindex && k < len(index.Manifests) && (gcRoot(index.Manifests[k], *conf.Storage.GC.Untagged) || gcRecentRoot(index.Manifests[k], conf.Storage.GC.GracePeriod)) ==>
 //@             queued(manifests, index.Manifests[k].Digest, mtKind(index.Manifests[k].MediaType))
-//@   loop 2,3,4: invariant [roots-settled]{C05} uses(assume.*, call.MediaTypeIndex@*, call.MediaTypeImage@*, call.Descriptor.Copy@*, call.Repo.blobGet@*, 2:maps, 3:maps, 4:maps, 2:roots-settled, 3:roots-settled, 4:roots-settled, 1:roots-queued, 1:index-apart, 2:index-apart, 3:index-apart, 4:index-apart) forall k: int :: 0 <= k && k < len(index.Manifests) && gcRoot(index.Manifests[k], *conf.Storage.GC.Untagged) ==>
+//@   loop 2,3,4: invariant [roots-settled]{C05} uses(assume.*, call.MediaTypeIndex@*, call.MediaTypeImage@*, call.Descriptor.Copy@*, call.Repo.blobGet@*, 2:maps, 3:maps, 4:maps, 2:roots-settled, 3:roots-settled, 4:roots-settled, assume.recent-is-stable-1, 1:roots-queued, 1:index-apart, 2:index-apart, 3:index-apart, 4:index-apart) forall k: int :: 0 <= k && k < len(index.Manifests) && (gcRoot(index.Manifests[k], *conf.Storage.GC.Untagged) || gcRecentRoot(index.Manifests[k], conf.Storage.GC.GracePeriod)) ==>
 //@             settled(walked, manifests, index.Manifests[k].Digest, mtKind(index.Manifests[k].MediaType))
 //@   loop 2,3,4: invariant [maps]{C05} seen != nil && walked != nil
 //@   loop 2,4: invariant [walked-is-marked]{C05} forall wk: walkKey :: walked[wk] ==> seen[wk.dig]
@@ -508,7 +514,7 @@ package store
 //@   -- when the work list is empty the marked set is closed: every retained root and everything a walked manifest lists
 //@   -- has been walked itself (and so is marked), or cannot be read at all; the least set closed under the retention rules
 //@   -- of the statement is then contained in the marked set (Knaster-Tarski step, stated in DESIGN.md, not mechanised)
-//@   assert [closed-roots]{C05} uses(assume.*, 2:maps, 2:roots-settled) before "repo.blobList(locked)": forall k: int :: 0 <= k && k < len(index.Manifests) && gcRoot(index.Manifests[k], *conf.Storage.GC.Untagged) ==>
+//@   assert [closed-roots]{C05} uses(assume.*, 2:maps, 2:roots-settled) before "repo.blobList(locked)": forall k: int :: 0 <= k && k < len(index.Manifests) && (gcRoot(index.Manifests[k], *conf.Storage.GC.Untagged) || gcRecentRoot(index.Manifests[k], conf.Storage.GC.GracePeriod)) ==>
 //@             walked[keyOf(walked, index.Manifests[k].Digest, mtKind(index.Manifests[k].MediaType))] || !gcReadable(index.Manifests[k].Digest)
 //@   assert [closed-children]{C05} uses(assume.*, 2:maps, 2:index-children-settled) before "repo.blobList(locked)": forall x: digest.Digest, j: int :: {gcIdxChild(x, j)} walked[keyOf(walked, x, 1)] && gcClean(x, 1) && 0 <= j && j < gcIdxN(x) ==>
 //@             walked[keyOf(walked, gcIdxChild(x, j), gcIdxChildKind(x, j))] || !gcReadable(gcIdxChild(x, j))
@@ -523,6 +529,11 @@ package store
 //@   assert [unlisted-digest-is-not-resolvable]{C06} uses(Index.GetDesc:digest-lookup-exact, 5:listed-digests-valid) after "index.GetDesc(d.String())": ret1 != nil ==> !types.hasDigest(index, d#3) && !types.hasChild(index, d#3)
 //@   assert [removed-entry-is-not-resolvable]{C06} uses(Index.RmDesc:no-ref-left, 5:listed-digests-valid) after "index.RmDesc(types.Descriptor{Digest: d})"#1: !types.hasDigest(index, d#3) && !types.hasChild(index, d#3)
 //@   assert [removed-blob-is-not-resolvable]{C06} uses(assert.unlisted-digest-is-not-resolvable, assert.removed-entry-is-not-resolvable) before "blobDelete(d, locked)": !types.hasDigest(index, d#3) && !types.hasChild(index, d#3)
+//@   -- a blob younger than the grace period is only removed when it is an index entry (those are roots, handled above)
+//@   -- "younger than the grace period" is measured from the time of the collection: the cutoff lies one grace period before it
+//@   assert [cutoff-is-one-grace-period-back]{C05} before "repo.blobList(locked)": conf.Storage.GC.GracePeriod >= 0 ==>
+//@             cutoff <= clock() - conf.Storage.GC.GracePeriod && cutoff >= old(clock()) - conf.Storage.GC.GracePeriod
+//@   assert [removes-no-recent-upload]{C05} before "blobDelete(d, locked)": conf.Storage.GC.GracePeriod >= 0 && gcRecent(d#3) ==> inIndex[d#3]
 //@   assert [removes-only-unmarked-blobs]{C05} before "blobDelete(d, locked)": !seen[d#3]
 //@   assert [removes-only-unmarked-entries]{C05} before call Index.RmDesc#2: !seen[d#3]
 //@   assert [removes-only-blobless-entries]{C05} before call Index.RmDesc#1: !blobExists[d#4]
